@@ -34,7 +34,7 @@ def cli_runs(ctx, n, maxlen):
     evs = []
     for j, k in enumerate((3, 4, 5, 6, 7)):
         fa = ctx.path("cli_ocgr_%d.fa" % k)
-        vlib.kvh(["gen", "fasta", ctx.seed * 100 + k, n, maxlen, fa])
+        vlib.kvh(["gen", "fasta", ctx.seed * 100 + k, n, maxlen, fa, "ratio%d" % k])
         for counts in (False, True):
             size = None if (j + counts) % 2 == 0 else [1, 16, 1 << 20][j % 3]
             out = ctx.path("cli_ocgr_%d_%d.out" % (k, counts))
